@@ -17,7 +17,11 @@ x ALL method chains of length <= 2 (quick) / <= 3 (thorough) over the alphabet
                    group_concat(sep), group_concat(distinct=True), random(k), len(q), list(q), delete(bulk=True|False)
 
 with ALL bounds 0 <= a, b, l, o, s, k <= n+1 and 1 <= p <= n+1, n = number of rows of the query the method is
-applied to. Every step is judged against the Python list operation on the ACTUAL full result R of its
+applied to. Length 2: every data set (n = 4, 2, 1, 0), every base, every form. Length 3 (thorough; CPU budget): the
+data sets with n <= 3 (3, 2, 1, 0 persons) and the 15 bases that are not one filter / order_by away from another;
+as SECOND step the page(p, s) / q[a:b] spellings of the limited subquery are left out and membership steps are
+taken only after a non-window step and not expanded further; as THIRD method the window spellings q[a:b] and
+limit(l, o) (full grids) stand for q[a:], q[:b], limit(l), fetch, page. Every step is judged against the Python list operation on the ACTUAL full result R of its
 predecessor (see _c24_lib); the base result is cross-checked against the QX reference evaluator. An exception
 from Pony is a refusal (counted), except for plain uses directly on a base query, which must be answered.
 
@@ -75,7 +79,10 @@ def lhs(node, col, a, scope):
 def args_of(node): return ', '.join(nm for nm, _ in node.rn)
 
 # ---- the step alphabet ----------------------------------------------------------------------------
-def steps_for(node):
+def steps_for(node, level=1):
+    """level 1: every form; level 2 (second step of a length-3 chain): the page / q[a:b] forms of the limited
+    subquery are left out (they reach the same code as limit(l, o) after Python arithmetic) and membership steps
+    are only taken directly after a non-window step"""
     out = []
     S = lambda fam, form, **a: out.append(dict(f=fam, form=form, **a))
     S('distinct', 'distinct()'); S('distinct', 'without_distinct()'); S('unorder', 'order_by(None)')
@@ -93,10 +100,11 @@ def steps_for(node):
     rng = range(0, n + 2)
     for l in rng:
         for o in rng: S('sub', 'for x in q.limit(l, o)', args=[l, o])
-    for p in range(1, n + 2):
-        for s in rng: S('sub', 'for x in q.page(p, s)', args=[p, s])
-    for a, b in ((0, 1), (1, n + 1)): S('sub', 'for x in q[a:b]', args=[a, b])
-    if node.insrc is not None:
+    if level == 1:
+        for p in range(1, n + 2):
+            for s in rng: S('sub', 'for x in q.page(p, s)', args=[p, s])
+        for a, b in ((0, 1), (1, n + 1)): S('sub', 'for x in q[a:b]', args=[a, b])
+    if node.insrc is not None and (level == 1 or not node.wrapped):
         for l in rng:
             for o in rng: S('in', 'y in q.limit(l, o)', args=[l, o])
         for k in rng: S('in', 'y in q[:k]', args=[k])
@@ -263,18 +271,22 @@ def sorted_by(parent, rows):
     return out
 
 # ---- terminals -------------------------------------------------------------------------------------
-def terminals_for(node):
+def terminals_for(node, level=1):
+    """level 3 (last method of a length-3 chain): of the window forms only the full q[a:b] and limit(l, o) grids"""
     out = []
     T = lambda fam, form, **a: out.append(dict(t=fam, form=form, **a))
     n = len(node.R)
     rng = range(0, n + 2)
     for a in rng:
         for b in rng: T('window', 'q[a:b]', args=[a, b])
-    for a in rng: T('window', 'q[a:]', args=[a]); T('window', 'q[:b]', args=[a]); T('window', 'limit(l)', args=[a])
     for l in rng:
-        for o in rng: T('window', 'limit(l, o)', args=[l, o]); T('window', 'fetch(l, o)', args=[l, o])
-    for p in range(1, n + 2):
-        for s in rng: T('window', 'page(p, s)', args=[p, s])
+        for o in rng: T('window', 'limit(l, o)', args=[l, o])
+    if level < 3:
+        for a in rng: T('window', 'q[a:]', args=[a]); T('window', 'q[:b]', args=[a]); T('window', 'limit(l)', args=[a])
+        for l in rng:
+            for o in rng: T('window', 'fetch(l, o)', args=[l, o])
+        for p in range(1, n + 2):
+            for s in rng: T('window', 'page(p, s)', args=[p, s])
     for f in ('first()', 'get()', 'exists()', 'len(q)', 'list(q)'): T(f[:-2] if f.endswith('()') else f, f)
     for d in (None, True, False): T('count', 'count(distinct=%s)' % d if d is not None else 'count()', args=[d])
     for fn in ('sum', 'avg'):
@@ -676,11 +688,12 @@ def record(w, node, op, v):
 def explore(w, node, depth):
     """node is executed and judged; run its terminals, then its children"""
     sub = w.sub
-    for t in terminals_for(node):
+    for t in terminals_for(node, depth + 1):
         sub.count('evaluations'); sub.count('terminal:' + t['t'])
         record(w, node, t, eval_terminal(node, t))
     if depth >= w.maxsteps: return
-    for st in steps_for(node):
+    if node.steps and node.steps[-1]['f'] == 'in': return      # below a membership query only the terminals (it is a plain entity query)
+    for st in steps_for(node, depth + 1):
         sub.count('evaluations'); sub.count('step:' + st['f'])
         c, v = make_child(node, st)
         record(w, node, st, v)
@@ -762,7 +775,7 @@ def run(ctx):
     ctx.cov['chain_length_max'] = maxsteps + 1
     ctx.cov['base_queries'] = [b.id for b in L.bases()]
     ctx.cov['datasets'] = [d for d in L.DATASETS if not (ctx.quick and d == 't3')]
-    ctx.cov['length_3_chains'] = 'none' if ctx.quick else 'data sets t3, t2, t1, t0 (n <= 3) x bases other than %s' % ', '.join(DERIVED)
+    ctx.cov['length_3_chains'] = 'none' if ctx.quick else ('data sets t3, t2, t1, t0 (n <= 3) x bases other than %s; second step: no page / q[a:b] subquery forms, membership steps only after a non-window step, nothing below a membership step; third method: window forms q[a:b] and limit(l, o) only' % ', '.join(DERIVED))
     ctx.assume('SQLite 3.40 in-memory database; rows reach it through Pony itself')
     ctx.assume('positions are demanded exactly only where the sort keys order the result totally (None keys are unordered); otherwise any window consistent with the keys is accepted')
     ctx.assume('documented conventions: count() is DISTINCT for non-entity rows, sum/avg/group_concat work on all rows unless distinct is requested, sum of nothing is 0, other aggregates of nothing are None; whether COUNT skips None values of a single column is not fixed (both accepted)')
